@@ -112,7 +112,8 @@ static void check_new_handle(actor *u)
 {
     for (int i = 0; i < G.nunit; i++) {
         actor *o = &G.unit[i];
-        if (o != u && o->created && o->named && !o->freed && o->h == u->h)
+        if (o != u && o->created && o->named && !o->freed && !ALOAD(o->freeing) && ALOAD(o->h_valid) &&
+            o->h == u->h)
             viol("new unit u%d got the handle of live unit u%d", u->id, o->id);
     }
 }
@@ -242,6 +243,8 @@ static void op_join_many(actor *a, op_t *o, int free_them)
         if (u->ends != u->incarnation)
             stat_add("join_before_end", 1);
         hs[n++] = u->h;
+        if (free_them)
+            ASTORE(u->freeing, 1);
     }
     int rc = free_them ? ABT_thread_free_many(n, hs) : ABT_thread_join_many(n, hs);
     CHECK_RC(rc, "ABT_thread_join_many/free_many");
@@ -423,4 +426,104 @@ static void op_poolcheck(actor *a)
      * of the blocked counter itself is checked: total_size is size + blocked
      * computed in one call; a negative blocked count shows as a huge value. */
     check_pool_counts("sample", 0);
+}
+
+/* ---- C15 (b): stacks ----------------------------------------------------------- */
+static struct {
+    volatile int used;
+    char *lo, *hi;
+    int unit;
+} g_stk[MAXU];
+static volatile int g_stk_lock;
+static void stk_lock(void)
+{
+    while (__atomic_exchange_n(&g_stk_lock, 1, __ATOMIC_ACQUIRE))
+        if (ds_active())
+            ds_point();
+}
+static __attribute__((noinline)) size_t stack_touch(char *limit, unsigned char pat)
+{
+    /* recurse with 256-byte frames until the next frame would come within one
+     * frame of `limit`; returns the number of bytes of stack actually covered */
+    volatile unsigned char buf[256];
+    for (int i = 0; i < 256; i++)
+        buf[i] = (unsigned char)(pat + i);
+    size_t r = 0;
+    if ((char *)buf - 1024 > limit)
+        r = stack_touch(limit, (unsigned char)(pat + 1));
+    else
+        r = (size_t)0;
+    for (int i = 0; i < 256; i++)
+        if (buf[i] != (unsigned char)(pat + i))
+            viol("stack contents changed under a work unit (pattern byte %d)", i);
+    return r + 256;
+}
+/* called by a ULT: its stack must be at least as large as requested, must contain
+ * the current frame, must not overlap the stack of another live ULT, and must be
+ * usable down to a small margin */
+static void op_stackuse(actor *a, long permille)
+{
+    if (a->kind != A_UNIT || a->utype != U_ULT)
+        return;
+    ABT_thread self;
+    int rc = ABT_self_get_thread(&self);
+    CHECK_RC(rc, "ABT_self_get_thread");
+    size_t sz = 0;
+    rc = ABT_thread_get_stacksize(self, &sz);
+    CHECK_RC(rc, "ABT_thread_get_stacksize");
+    if (a->stackkind && sz < (size_t)a->stacksize)
+        viol("u%d asked for a %ld-byte stack, ABT_thread_get_stacksize reports %zu", a->id,
+             a->stacksize, sz);
+    ABT_thread_attr attr;
+    rc = ABT_thread_get_attr(self, &attr);
+    CHECK_RC(rc, "ABT_thread_get_attr");
+    void *base = NULL;
+    size_t asz = 0;
+    rc = ABT_thread_attr_get_stack(attr, &base, &asz);
+    CHECK_RC(rc, "ABT_thread_attr_get_stack");
+    ABT_thread_attr_free(&attr);
+    char here;
+    char *lo = (char *)base, *hi = lo + asz;
+    if (base && (&here < lo || &here >= hi))
+        viol("u%d runs at %p, outside the stack [%p,%p) reported for it", a->id, (void *)&here,
+             (void *)lo, (void *)hi);
+    if (a->stackkind == 2 && (lo != (char *)a->ustack + a->stackoff || asz != (size_t)a->stacksize))
+        viol("u%d: user-supplied stack (%p,%ld) reported as (%p,%zu)", a->id,
+             (void *)((char *)a->ustack + a->stackoff), a->stacksize, (void *)lo, asz);
+    if (base) {
+        stk_lock();
+        for (int i = 0; i < MAXU; i++)
+            if (g_stk[i].used && g_stk[i].unit != a->id && lo < g_stk[i].hi && g_stk[i].lo < hi) {
+                __atomic_store_n(&g_stk_lock, 0, __ATOMIC_RELEASE);
+                viol("stacks of live units u%d and u%d overlap", a->id, g_stk[i].unit);
+            }
+        g_stk[a->id].used = 1;
+        g_stk[a->id].lo = lo;
+        g_stk[a->id].hi = hi;
+        g_stk[a->id].unit = a->id;
+        __atomic_store_n(&g_stk_lock, 0, __ATOMIC_RELEASE);
+    }
+    /* use the stack: everything below the current frame except a safety margin */
+    size_t avail = base ? (size_t)(&here - lo) : 0;
+    size_t margin = 6144;
+    const char *guard = getenv("ABT_STACK_OVERFLOW_CHECK");
+    if (guard && !strncmp(guard, "mprotect", 8))
+        margin += 3 * 4096; /* the guard page(s) lie inside the stack (documented: up to 2 pages) */
+    if (avail > margin) {
+        size_t want = (avail - margin) * (size_t)permille / 1000;
+        char *limit = &here - want;
+        size_t got = stack_touch(limit, (unsigned char)(a->id * 7));
+        stat_max("max_stack_bytes_touched", (long)got);
+    }
+    if (a->stackkind == 1 && (a->stacksize % 64))
+        stat_add("odd_stack_sizes", 1);
+    stat_add("stack_checks", 1);
+}
+static void stack_release(actor *a)
+{
+    if (a->kind == A_UNIT && g_stk[a->id].used) {
+        stk_lock();
+        g_stk[a->id].used = 0;
+        __atomic_store_n(&g_stk_lock, 0, __ATOMIC_RELEASE);
+    }
 }
